@@ -124,9 +124,9 @@ func init() {
 	}})
 	register(&Check{Prop: "C14", Level: "model_checking", Rule: timedRule, Assumptions: timedAssumptions, Units: func(tier string) []Unit {
 		if tier == "thorough" {
-			return scUnits(1, "prevote3-1", "prevote3-5", "prevote3-20", "prevote3-leader", "prevote5-5", "prevote3-mixed", "prevote5-pair", "prevote4-demoted")
+			return scUnits(1, "prevote3-1", "prevote3-5", "prevote3-20", "prevote3-leader", "prevote5-5", "prevote3-mixed", "prevote5-pair", "prevote4-demoted", "prevote3-transfer")
 		}
-		return append(scUnits(1, "prevote3-1", "prevote3-5", "prevote3-leader", "prevote3-mixed"), scUnit("prevote5-pair", 0), scUnit("prevote4-demoted", 0))
+		return append(scUnits(1, "prevote3-1", "prevote3-5", "prevote3-leader", "prevote3-mixed"), scUnit("prevote5-pair", 0), scUnit("prevote4-demoted", 0), scUnit("prevote3-transfer", 1))
 	}})
 	fineRule := "deviation-bounded DFS where, from the scripted race on, every select / lock / wait of every thread is a branching point (preemptions, alternative ready select cases and free scheduling choices each cost one deviation); a case is one complete execution; distinct = distinct final outcome"
 	fineAssumptions := []string{
